@@ -7,7 +7,9 @@ from harness import core, py2lean, instantiate
 from harness.core import Outcome, f2b, b2f
 
 ID = "C05"
-LEAN_TARGETS = ["BeyondVerif.Props.C05", "BeyondVerif.Lemmas.TwoBody", "BeyondVerif.Lemmas.NewtonKepler"]
+LEAN_TARGETS = ["BeyondVerif.Props.C05", "BeyondVerif.Props.C05Cart", "BeyondVerif.Props.C05Term", "BeyondVerif.Props.C05Universal",
+                "BeyondVerif.Lemmas.TwoBody", "BeyondVerif.Lemmas.TwoBodyHyp", "BeyondVerif.Lemmas.TwoBody3D", "BeyondVerif.Lemmas.PropagCart",
+                "BeyondVerif.Lemmas.NewtonKepler", "BeyondVerif.Lemmas.NewtonKeplerApogee", "BeyondVerif.Lemmas.NewtonHyp", "BeyondVerif.Lemmas.Universal"]
 THEOREMS = [
     "BeyondVerif.C05.meanMotion_formula",
     "BeyondVerif.C05.kepler_elements_constant",
@@ -21,6 +23,14 @@ THEOREMS = [
     "BeyondVerif.C05.kepler_equation_equivariant",
     "BeyondVerif.C05.hyperbolic_kepler_equation_solution_unique",
     "BeyondVerif.C05.kepler_solves_two_body",
+    "BeyondVerif.C05.kepler_solves_two_body_hyperbolic",
+    "BeyondVerif.C05.meanToCart_eq_cartOf",
+    "BeyondVerif.C05.kepler_solves_two_body_cartesian",
+    "BeyondVerif.C05.kepler_solves_two_body_cartesian_hyperbolic",
+    "BeyondVerif.C05.cartOf_invariants_elliptic",
+    "BeyondVerif.C05.cartOf_invariants_hyperbolic",
+    "BeyondVerif.C05.kepler_is_universal_variable_solution",
+    "BeyondVerif.C05.kepler_is_universal_variable_solution_hyperbolic",
     "BeyondVerif.C05.deltaT_eq",
     "BeyondVerif.C05.deltaT_telescope",
     "BeyondVerif.C05.subDate_inst",
@@ -48,6 +58,19 @@ THEOREMS = [
     "BeyondVerif.C05.loop_returns",
     "BeyondVerif.C05.kpM2eLoop_neg",
     "BeyondVerif.C05.kepler_m2e_terminates_partial",
+    "BeyondVerif.C05.loop_returns_gen",
+    "BeyondVerif.C05.kepler_m2e_terminates",
+    "BeyondVerif.C05.m2e_loop_residual_hyperbolic",
+    "BeyondVerif.C05.kepler_anomaly_residual_hyperbolic",
+    "BeyondVerif.C05.kepler_m2e_terminates_hyperbolic",
+    "BeyondVerif.C05.kepler_propagation_returns",
+    "BeyondVerif.C05.kpM2e_shift",
+    "BeyondVerif.C05.meanToCart_shiftM",
+    "BeyondVerif.C05.kepler_periodic_cartesian",
+    "BeyondVerif.C05.kepler_periodic_cartesian_then",
+    "BeyondVerif.C05.kepler_periodic_cartesian_in_out",
+    "BeyondVerif.C05.kepler_periodic_cartesian_in_out_then",
+    "BeyondVerif.C05.j2_outside_domain_hyperbolic",
     "BeyondVerif.C05.kepler_cart_compose",
     "BeyondVerif.C05.kepler_cart_inverse",
     "BeyondVerif.C05.kepler_cart_periodic",
@@ -66,26 +89,37 @@ THEOREMS = [
     "BeyondVerif.C05.j2_node_rate_eq_sso",
 ]
 LEVEL_TEXT = ("Lean theorems over R about the element update translated from kepler.py, j2.py and Infos.n on every run: a, e, i, node, perigee constant and "
-              "M advanced by sqrt(mu/|a|^3) dt for all inputs; composition and inverse exact for all t1, t2; one period adds exactly 2 pi; for bound orbits the perifocal "
-              "coordinates of the propagated state satisfy Newton's equation r'' = -mu r/|r|^3 (HasDerivAt, all t); "
+              "M advanced by sqrt(mu/|a|^3) dt for all inputs; composition and inverse exact for all t1, t2; one period adds exactly 2 pi. "
+              "TWO-BODY SOLUTION, both conics, in the frame: with E(t) (H(t)) the solution of the (hyperbolic) Kepler equation for the advanced mean anomaly, the six components "
+              "of the CARTESIAN state computed by the library's own conversion chain (Form._keplerian_eccentric_to_keplerian and _keplerian_to_cartesian, translated from forms.py "
+              "on every run and proved equal to the textbook perifocal coordinates rotated by the constant matrix R3(-raan) R1(-i) R3(-argp)) satisfy r' = v, v' = -mu r/|r|^3 with the 3-D norm "
+              "(HasDerivAt, all t, Delta t of either sign; e < 1 with a > 0 and e > 1 with a < 0). "
+              "UNIVERSAL VARIABLES: for the initial cartesian state c0 the universal anomaly chi = sqrt(|a|) (E - E0) solves the universal Kepler equation written with alpha = 2/|r0| - |v0|^2/mu, "
+              "|r0|, r0.v0 read off c0 and the Stumpff functions, it is its ONLY solution, and f r0 + g v0 is the position of the propagated state, axis by axis (elliptic and hyperbolic). "
+              "TERMINATION: over R the Newton loop of Form.M2E (start values, update, tolerance, reduction translated; loop shape checked) exits for EVERY mean anomaly and every 0 <= e < 1 "
+              "(monotone descent for |M'| <= pi - e; quadratic contraction around +-pi in the gap pi - e < |M'| <= pi; M' = -pi) and for every e > 1 and every M whatever the start value "
+              "(hence with the clamped start of 31f549a); a returned anomaly solves Kepler's equation within 2 tol (1+e), resp. 8 e cosh H tol^2. "
+              "PERIODICITY at cartesian level for every fuel: M2E commutes with whole turns, the translated way out is 2 pi-periodic, so after k periods the model of Orbit.propagate returns exactly "
+              "what it returns at once, also cartesian in / cartesian out through the translated orbit setter (cartesian -> keplerian -> eccentric -> mean). "
               "J2 keeps a, e, i, is linear in dt with exactly the first-order secular rates (no node drift at cos i = 0, no perigee drift at 5 cos^2 i = 1, "
-              "node rate = Earth's mean motion for the inclination returned by leo.sso), composes modulo 2 pi. Cartesian-level composition / inverse / "
-              "periodicity are proved from the form round trip as explicit hypotheses (C01). "
+              "node rate = Earth's mean motion for the inclination returned by leo.sso), composes modulo 2 pi; its domain is 0 <= e < 1 (j2_outside_domain_hyperbolic). "
+              "Cartesian-level composition / inverse are proved from the form round trip as explicit hypotheses (C01). "
               "Dates: delta_t and the target date are translated from the head of Kepler.propagate / J2.propagate into the C03 date model (instant on TAI + own scale); for an epoch and "
               "a target in ANY pair of the six scales delta_t is the difference of the two instants (exactly for whole-microsecond dates, within 1 us otherwise), M advances by n times it, "
               "J2 drifts at the secular rates times it, the result carries the requested date, relabelling either date in another scale changes nothing, composition / inverse through "
               "dates in any three scales are exact; a timedelta argument is the date epoch + timedelta and advances M by n times the timedelta in TAI, TT, GPS (also across leap seconds, "
               "every Earth-orientation environment) and in any scale when the offset to TAI does not change (UTC when no leap second intervenes); UTC -> TT spelled out "
-              "(readings minus 32.184 s minus TAI-UTC). The propagator object re-reads the orbit (elements and epoch) on every call (history independence); "
-              "the Newton loop of Form.M2E (translated start values / update / tolerance, loop shape checked) is left on convergence only, so a returned anomaly solves Kepler's equation "
-              "for the advanced mean anomaly within 2e-8 (1+e); for the anomaly reduced to [-pi, pi) (as the code does since b41fd8b) with |M'| <= pi - e the loop provably exits (monotone Newton descent). Differential correspondence of the whole chain (update, M2E, "
-              "eccentric -> true -> cartesian, all in Lean) against Orbit.propagate from every form, on single calls and on call histories with in-place modifications.")
-LEVEL_NOTE = ("R -> double gap covered only by tolerance-bounded correspondence; form conversions (C01) enter as hypotheses; that advancing M at rate n solves the "
-              "two-body ODE is proved for bound orbits in the orbital plane only (hyperbolic case: oracle, independent universal-variable propagator); Lean kernel + propext/Classical.choice/Quot.sound; "
-              "py2lean translator and harness trusted")
-TECHNIQUE = "Lean 4 proof (ring / field identities, floor arithmetic) over formulas regenerated from the Python AST; differential correspondence; oracle on the real API"
+              "(readings minus 32.184 s minus TAI-UTC). The propagator object re-reads the orbit (elements and epoch) on every call (history independence). "
+              "Differential correspondence of the whole chain (setter on a cartesian orbit, update, M2E, eccentric -> true -> cartesian, all in Lean) against Orbit.propagate from every form, "
+              "around the Earth, the Moon and the Sun, on single calls and on call histories with in-place modifications.")
+LEVEL_NOTE = ("R -> double gap covered only by tolerance-bounded correspondence; form conversions other than the two chains named above (C01) enter as hypotheses of the cartesian-level "
+              "composition / inverse theorems; the two-body and universal-variable theorems are about the EXACT solution of Kepler's equation, the code returns the Newton iterate whose residual "
+              "is bounded by kepler_anomaly_residual(_hyperbolic); termination is proved over R, the double-precision iteration is covered by the 1 s watchdog and the fuel-bounded compiled model; "
+              "Lean kernel + propext/Classical.choice/Quot.sound; py2lean translator and harness trusted")
+TECHNIQUE = "Lean 4 proof (ring / field identities, floor arithmetic, real analysis: HasDerivAt, mean value theorem, intermediate value theorem) over formulas regenerated from the Python AST; differential correspondence; oracle on the real API"
 TRUSTED = [
-    "harness/py2lean.py: translates Infos.n, Body.mu, the body of Kepler.propagate and J2.propagate and the sso inclination formula into Generated/Propag{F,R}.lean on every run; "
+    "harness/py2lean.py: translates Infos.n, Body.mu, the body of Kepler.propagate and J2.propagate, the sso inclination formula, the pieces of Form.M2E and the five conversion edges "
+    "cartesian -> keplerian -> keplerian_eccentric -> keplerian_mean (orbit setter) and keplerian_eccentric -> keplerian -> cartesian (result) into Generated/Propag{F,R}.lean on every run; "
     "constants G, Earth mass/radius/J2 are read from the live beyond.constants module",
     "harness/props/C05.py DateTr / date_head: typed translation of the date arithmetic at the head of both propagate() methods (Date - Date, Date + timedelta, total_seconds) into the "
     "C03 date model; anything else (own-scale clock fields d, s, datetime, mjd) is refused and the run reported as broken; shape checks: `date` rebound only in the timedelta branch, "
@@ -94,38 +128,57 @@ TRUSTED = [
     "the propagators by the dated correspondence cases (model span / stamped scale vs `result.date - epoch`, cartesian state) in three Earth-orientation environments",
     "oracle: the instants of the dates handed in come from the harness's own offsets (32.184 s, 19 s, tai-utc.dat / finals read by C03.tables, documented TDB formula), not from the library",
     "lean/templates/Propag.tpl (hand-written glue: which element is updated, the modulo-2pi wrap of J2, the fuel-bounded Newton loop whose shape the extractor checks against "
-    "the source, the propagator object and its unconditional setter), tied by the correspondence run (single calls, slow-M2E inputs, histories)",
+    "the source, the order of the conversion edges on the way in and out, the propagator object and its unconditional setter), tied by the correspondence run (single calls, "
+    "cartesian in / cartesian out, slow-M2E inputs, histories)",
+    "Lemmas/Universal.lean stumpC / stumpS: the textbook Stumpff functions, hand-written (the reference solution is independent of the library; C19's lamC / lamS translated from lambert.py "
+    "have the same closed forms but cannot be imported next to C05's modules: Generated/LeoFnR and Generated/PropagR both define BeyondVerif.R.meanMotion)",
     "harness mirror of the M2E loop (m2e_iters) is used only to SELECT inputs on which the loop runs long, never as an expected value; a 1 s SIGALRM watchdog decides 'does not return'",
     "numpy / libm double arithmetic vs R: tolerance 1e-9 (1 + n|dt|) relative",
 ]
-ASSUMPTIONS = ["timedelta arguments: `advances M by n times the timedelta` is stated (and tested) for epochs in TAI, TT, GPS and for UTC when no leap second lies in the span; "
+ASSUMPTIONS = ["J2 clause: domain 0 <= e < 1, a > 0, mu > 0 (the guards of j2_rates_formula / j2_step_mod / j2_node_rate_eq_sso). The first-order secular rates are averages over a revolution and "
+               "the mean-anomaly rate contains sqrt(1 - e^2): they do not exist for an open orbit. For e > 1 J2.propagate evaluates np.sqrt of a negative number and returns an all-NaN state "
+               "without raising (recorded by the oracle probe `j2-hyperbolic`: every probe of every run; the compiled model returns NaN as well, the model over R is not faithful there: "
+               "j2_outside_domain_hyperbolic). This is read as outside the property, not as a violation: the statement speaks of rates that are undefined there and says nothing about errors",
+               "Kepler clauses: e in [1e-4, 0.95] with a > 0 and e in [1.01, 10] with a < 0 (the library's sign convention), mu > 0; the theorems hold for 0 <= e < 1 resp. e > 1",
+               "timedelta arguments: `advances M by n times the timedelta` is stated (and tested) for epochs in TAI, TT, GPS and for UTC when no leap second lies in the span; "
                "for UT1 / TDB epochs and UTC spans across a leap second a timedelta is propagated as the date `epoch + timedelta` (consistency with that date is tested, not n*timedelta)",
                "dates within 2 minutes of a leap second and UT1 readings within 5 s of midnight (C03's open finding ut1-step-at-utc-midnight) are not generated; spans may cross leap seconds",
-               "cartesian-level theorems take the keplerian_mean <-> cartesian round trip (up to 2 pi k on M for e < 1) and the 2 pi-periodicity of mean -> cartesian as hypotheses hRT / hPer (C01)",
+               "cartesian-level composition / inverse take the keplerian_mean <-> cartesian round trip (up to 2 pi k on M for e < 1) as hypothesis hRT (C01); the 2 pi-periodicity hPer of "
+               "mean -> cartesian is now proved for the translated chain (meanToCart_shiftM), and periodicity needs no round trip (kepler_periodic_cartesian_in_out)",
                "theorems are over R; the implementation computes in IEEE doubles",
-               "frames are only labels here: the propagators never change the frame"]
+               "frames are only labels here: the propagators never change the frame; the attracting body enters through mu only (Earth, Moon, Sun in the runs)"]
 NOT_COVERED = ["the date arithmetic itself (Date construction, offsets, `-`, `+`) is C03's subject: here its model is used, and tied to the propagators by the dated cases only; "
                "`datetime` arguments are refused by the library (TypeError; tallied by the oracle), numpy datetime64 / float arguments likewise",
-               "two-body solution: proved for bound orbits in the orbital plane (kepler_solves_two_body: perifocal coordinates of the propagated state satisfy r'' = -mu r/|r|^3 with the same mu); "
-               "the hyperbolic counterpart, the constant rotation of the orbital plane into the frame, and that the library's mean -> cartesian conversion computes these coordinates (C01) are not formalised; "
-               "agreement with the independent universal-variable solution (elliptic and hyperbolic, both time directions) is oracle only",
-               "J2 on hyperbolic orbits: the code returns NaN silently (sqrt(1 - e^2)); secular J2 theory is defined for bound orbits only, the model reproduces the NaN, the theorems assume e < 1 where sqrt matters"]
-OPEN = ["termination of Form.M2E (elliptic branch, code after fix b41fd8b) is proved over R for reduced mean anomalies |M'| <= pi - e (kepler_m2e_terminates_partial: monotone Newton descent, at most e/tol + 2 passes); "
-        "remaining gap: pi - e < |M'| <= pi (within e of apogee the start value M' +- e overshoots +-pi into the region of the other curvature; <= 11 passes on 1e6 sampled inputs, oracle m2e_case) "
-        "and the double-precision iteration itself (R -> double; covered by the 1 s watchdog families m2e-no-return-*, the pinned regression inputs and the fuel-bounded compiled model); hyperbolic branch: no termination theorem",
+               "the conversions from the other eight element forms to keplerian_mean (orbit setter on a non-cartesian orbit) and the exact mean -> cartesian -> mean round trip are C01's; "
+               "here only the cartesian way in and the way out are modelled",
+               "universal-variable VELOCITY (f-dot, g-dot) is not formalised (position via f, g is; the velocity of the propagated state is the derivative of that position by "
+               "kepler_solves_two_body_cartesian); the numerical universal-variable solver of the oracle (bracketed Newton in double precision) remains an oracle",
+               "parabolic orbits (e = 1 exactly) and e in (0.95, 1.01) are outside the property's domain; the hyperbolic branch of M2E divides by e cosh H - 1, which vanishes at e = 1, H = 0"]
+OPEN = ["termination of Form.M2E is proved over R (kepler_m2e_terminates, kepler_m2e_terminates_hyperbolic); what stays open is the double-precision iteration itself (R -> double): "
+        "covered by the 1 s watchdog families m2e-no-return-*, the pinned regression inputs, the edge inputs of gen_m2e_input and the fuel-bounded compiled model (10^4 passes), not by proof; "
+        "no bound on the NUMBER of passes better than e/tol + 2 (ellipse, descent regime) is proved — observed: <= 6 passes for e <= 0.95, <= 31 for hyperbolas over 6e5 domain samples",
+        "seeded change C05-m2 (cap of 50 passes) is reported as `no-failing-input-found`: since the fixes b41fd8b (reduction) and 31f549a (clamped start) no input in the domain needs more "
+        "than 31 passes, and a differential run of capped vs uncapped M2E over 4e5 inputs (e up to 1 +- 1e-16, |M| up to 1e300) differs only for |M| > 3e16 with 1 - e < 1e-6, "
+        "far outside the domain: within the property's domain the change has no observable effect; it is caught because the extractor refuses any loop that can be left before convergence",
         "known findings C05-hyperbolic-M2E-overflow (31f549a) and C05-m2e-no-return-ell (b41fd8b) are fixed in /repo; their oracle families stay alive (reversing either fix gives a VIOLATION with a replay)"]
-RULE = ("correspondence: random orbits (e log/uniform in [1e-4,0.95] and [1.01,10], perigee radius 6.6e6..5e7 m, every form the conic admits, dt in +-30 d quantised to ms) through "
-        "Orbit.propagate (Kepler, J2) vs real mean->cartesian applied to the Lean model's elements on the real cartesian->mean elements; non-trivial = dt != 0; distinct = distinct request line. "
+RULE = ("correspondence: random orbits (e log/uniform in [1e-4,0.95] and [1.01,10], perigee radius 6.6e6..5e7 m around the Earth, scaled by 0.3 around the Moon and 3000 around the Sun "
+        "(frames of beyond.env.solarsystem: a second and third mu), every form the conic admits, dt in +-30 d quantised to ms) through "
+        "Orbit.propagate (Kepler, J2) vs real mean->cartesian applied to the Lean model's elements on the real cartesian->mean elements, and vs the Lean chain; every cartesian-form case and every "
+        "third other case rebuilt in cartesian form additionally through driver command propc: the WHOLE call in the model from the six cartesian numbers (setter elements compared too); "
+        "non-trivial = dt != 0; distinct = distinct request line. "
         "plus the Kepler inputs with the most Newton passes among 2e4 (2e5) domain candidates, plus call histories (propagate / modify in place: element, velocity scaling, form, date / propagate again, "
         "epoch shifted or RELABELLED in another scale; timedelta, date in the epoch's scale, date in a drawn scale) threaded through the model's propagator object (driver command histd: "
         "the model is given scale + clock reading of epoch and target and computes the span itself), one third of them in a drawn Earth-orientation environment with the epoch in a drawn scale; "
         "single dated propagations: propagator x {no EOP, constant mocked record, real tests/data/pole database} x scale of the epoch x scale of the target (all 2 x 3 x 36, 3 (40) sweeps), "
         "every seventh a timedelta, a third of the real-database epochs placed so that the span crosses a leap second; the model's cartesian state comes from the Lean chain with fuel 1e4. "
         "oracle: element constancy, M advance, composition, inverse, periodicity, universal-variable two-body solution (1e-5), J2 secular rates from the textbook formula, polar / critical / sso, "
-        "Kepler-equation residual of Form.M2E over the domain, history = fresh orbit, every call under a watchdog (no return = failure), pinned regression inputs; "
+        "Kepler-equation residual of Form.M2E over the domain and at its edges (e at 1e-4 / 0.95 / 1.01 / 1.6 / 3.6 / 10, reduced anomaly within 1e-14..1e-1 of 0 and +-pi, clamp threshold), "
+        "history = fresh orbit, two orbits iterated in lockstep = fresh orbits, one propagator object with the orbit assigned once and propagate() called five times in mixed order = fresh orbits, "
+        "every call under a watchdog (no return = failure), pinned regression inputs; "
         "every Kepler / J2 clause again with the dates handed in as Date objects (gen_dated: environment x epoch scale x first target scale through all 3 x 36 combinations, 2 (12) sweeps per "
         "propagator; the composition legs, the way back and the period in further drawn scales or as timedelta; expected values from the elapsed time between the instants computed by the harness; "
-        "the result must carry the requested date and scale); iter(dates=mixed scales), iter(start in another scale, stop, step), datetime arguments (api_case)")
+        "the result must carry the requested date and scale); iter(dates=mixed scales), iter(start in another scale, stop, step), datetime arguments (api_case); "
+        "J2 on hyperbolic orbits is probed and recorded, not judged")
 
 REPO = core.REPO
 KEPLER_PY = os.path.join(REPO, "beyond", "propagators", "kepler.py")
@@ -239,7 +292,10 @@ def to_cart_chain(tree):
              py2lean.indent(out["startE"], 4) + "\n  else\n" + py2lean.indent(out["startH"], 4) + "\n",
              "/-- `next_E` / `next_H` of `Form.M2E` -/\ndef kpM2eNext (X e M : R) : R :=\n  if " + test + " then " + out["nextE"] + "\n  else " + out["nextH"] + "\n",
              "/-- the `while` test of `Form.M2E` -/\ndef kpM2eContinue {α : Type} (X1 X : R) (yes no : α) : α :=\n  if (absR (X1 - X)) ≥ kpM2eTol then yes else no\n"]
-    for py, ln in (("_keplerian_eccentric_to_keplerian", "kpEccToKepl"), ("_keplerian_to_cartesian", "kpKeplToCart")):
+    # the way out (`new.copy(form="cartesian")`) and the way in (the orbit setter on a cartesian orbit)
+    for py, ln in (("_keplerian_eccentric_to_keplerian", "kpEccToKepl"), ("_keplerian_to_cartesian", "kpKeplToCart"),
+                   ("_cartesian_to_keplerian", "kpCartToKepl"), ("_keplerian_to_keplerian_eccentric", "kpKeplToEcc"),
+                   ("_keplerian_eccentric_to_keplerian_mean", "kpEccToMean")):
         parts.append(f"/-- `Form.{py}` -/\n" + py2lean.translate_fn(FORMS_PY, "Form." + py, ln, vec_params={"coord": CARGS}, consts=MU_CONSTS,
                                                                    extra_args=["mu"], tree=tree, ret_type="List R"))
     return "\n".join(parts)
@@ -458,6 +514,11 @@ def warm_envs():
     D3().tables()
     epoch0_us()
     set_env("zero")
+    if not _env_state.get("bodies"):
+        from beyond.env import solarsystem
+        for name in OTHER_BODIES:
+            solarsystem.get_frame(name)          # registers the frame under its name
+        _env_state["bodies"] = True
 
 
 class eop_env:
@@ -579,6 +640,16 @@ ELL_FORMS = ["cartesian", "keplerian", "keplerian_mean", "keplerian_eccentric", 
              "equinoctial", "spherical", "cylindrical", "tle"]
 HYP_FORMS = ["cartesian", "keplerian", "keplerian_mean", "keplerian_eccentric", "keplerian_circular", "equinoctial", "spherical", "cylindrical"]
 FRAMES = ["EME2000", "EME2000", "GCRF", "MOD", "TOD"]
+# a second and a third attracting body (another mu): the analytical Moon / Sun frames of beyond.env.solarsystem; Kepler only (the J2
+# propagator carries the Earth's J2 and radius whatever the centre)
+OTHER_BODIES = {"Moon": 0.3, "Sun": 3000.0}      # frame name -> factor on the perigee radius drawn for an Earth orbit
+KEPLER_FRAMES = FRAMES + FRAMES + ["Moon", "Moon", "Sun"]
+
+
+def rescale(elts, frame):
+    """the same shape of orbit around another body: lengths scaled to the size of that body's neighbourhood"""
+    k = OTHER_BODIES.get(frame)
+    return elts if k is None else [elts[0] * k] + list(elts[1:])
 
 
 def q(x, step=1e-3):
@@ -735,7 +806,8 @@ def gen_history_input(rng, prop, k=0):
         elif kind == "relabel":
             steps.append(("relabel", rng.choice(SCALES)))
         steps.append(pstep())
-    inp = {"propagator": prop, "form": rng.choice(forms), "frame": rng.choice(FRAMES), "mean_elements": elts, "steps": steps}
+    frame = rng.choice(KEPLER_FRAMES if prop == "Kepler" else FRAMES)
+    inp = {"propagator": prop, "form": rng.choice(forms), "frame": frame, "mean_elements": rescale(elts, frame), "steps": steps}
     if dated:
         env = rng.choice(ENVS)
         sE = rng.choice(SCALES)
@@ -872,15 +944,17 @@ def correspondence(ctx):
     for k in range(N):
         prop = "Kepler" if k % 2 == 0 else "J2"
         conic = "ell" if (rng.random() < 0.55 or (prop == "J2" and rng.random() < 0.8)) else "hyp"
-        elts = gen_elts(rng, conic)
+        frame = rng.choice(KEPLER_FRAMES)        # the model is given mu: any centre, both propagators
+        elts = rescale(gen_elts(rng, conic), frame)
         if rng.random() < 0.05:
             elts[2] = rng.choice([math.pi / 2, math.asin(math.sqrt(0.8)), math.pi - math.asin(math.sqrt(0.8))])
-        cases.append((prop, conic, elts, rng.choice(ELL_FORMS if conic == "ell" else HYP_FORMS), rng.choice(FRAMES), gen_dt(rng), "random", None))
+        cases.append((prop, conic, elts, rng.choice(ELL_FORMS if conic == "ell" else HYP_FORMS), frame, gen_dt(rng), "random", None))
     for inp in slow_m2e_inputs(rng, ctx.n(20000, 200000), ctx.n(60, 600)):
         conic = "ell" if inp["mean_elements"][1] < 1 else "hyp"
         cases.append(("Kepler", conic, inp["mean_elements"], inp["form"], inp["frame"], inp["dt"], "slow-m2e", inp["m2e_passes"]))
     for inp in PINNED:
         cases.append(("Kepler", "ell", inp["mean_elements"], inp["form"], inp["frame"], inp["dt"], "pinned", None))
+    ncart = 0
     for prop, conic, elts, form, frame, dt, tag, passes in cases:
         orb, d0 = make(elts, form, frame, prop)
         date = d0 + timedelta(seconds=dt)
@@ -896,11 +970,28 @@ def correspondence(ctx):
         n = mean_motion(mu, x0[0]) if finite(x0) and x0[0] != 0 else float("nan")
         meta.append((prop, impl, (date, frame, n, dt_code, conic), {"propagator": prop, "form": form, "frame": frame, "mean_elements": elts, "dt": dt, "class": tag}))
         out.count(key=reqs[-1], nontrivial=dt != 0, kind=f"{prop}-{conic}", form=form, sign="dt<0" if dt < 0 else "dt>=0",
-                  span="|dt|>1d" if abs(dt) > DAY else "|dt|<=1d", cls=tag)
+                  span="|dt|>1d" if abs(dt) > DAY else "|dt|<=1d", cls=tag, centre=frame if frame in OTHER_BODIES else "Earth")
         if passes is not None:
             out.tally("m2e-passes=" + ("<=20" if passes <= 20 else "21-50" if passes <= 50 else "51-100" if passes <= 100 else ">100"))
         if abs(dt_code - dt) > 1e-9:
             out.fail("date-difference", "(date - orbit.date).total_seconds() differs from the requested interval", {"dt": dt}, observed=dt_code, expected=dt)
+        # the whole of Orbit.propagate on a CARTESIAN orbit in the model: the setter's way in (cartesian -> keplerian -> eccentric ->
+        # mean, translated from forms.py), the update, the way out.  Every cartesian case, and every third of the others rebuilt in
+        # cartesian form.
+        ncart += 1
+        if not isinstance(impl, str) and (form == "cartesian" or ncart % 3 == 0):
+            try:
+                with _quiet(), time_limit():
+                    orbc = orb if form == "cartesian" else make(elts, "cartesian", frame, prop)[0]
+                    implc = impl if form == "cartesian" else [float(v) for v in orbc.propagate(date)]
+                    xc = mean_of(orbc)
+                c0 = [float(v) for v in orbc]
+                reqs.append(" ".join(["propc", prop.lower(), f2b(mu)] + [f2b(v) for v in c0] + [f2b(dt_code)]))
+                meta.append(("propc", implc, (n, dt_code, conic, xc), {"propagator": prop, "form": "cartesian", "frame": frame, "mean_elements": elts, "dt": dt,
+                                                                   "class": tag, "cartesian": c0}))
+                out.count(key=reqs[-1], nontrivial=dt != 0, kind=f"cartesian-in-out-{prop}-{conic}", cls=tag)
+            except NoReturn:
+                out.tally("cartesian-in-out=no-return (skipped)")
     # histories on one Orbit object / one propagator object, and single propagations with the dates handed in as `Date`s
     # (epoch and target in every pair of scales, every Earth-orientation environment): the model computes the span from the dates
     hists = [(gen_history_input(rng, "Kepler" if k % 3 != 2 else "J2", k), "history") for k in range(ctx.n(250, 4000))]
@@ -942,6 +1033,46 @@ def correspondence(ctx):
                 model = [b2f(x) for x in rep.split()]
                 if not all(core.close(x, y, rtol=1e-12, atol=1e-15) for x, y in zip(impl, model)):
                     out.fail("c05-sso", "cos(leo.sso(a, e)) differs from the translated formula", inp, observed=impl, expected=model)
+                continue
+            if kind == "propc":
+                n, dt, conic, xc = aux
+                parts = rep.split("|")
+                mel = [b2f(x) for x in parts[0].split()]
+                mcart = parse_cart(parts[1]) if len(parts) > 1 else "bad-op"
+                if len(mel) != 6:
+                    out.fail("c05-cartesian-in-out-shape", "the model's orbit setter did not return six elements", inp, observed=xc, expected=rep[:80])
+                    continue
+                # the setter: mean elements from the cartesian coordinates (angles mod 2 pi; conditioning of the element set)
+                if finite(xc) and finite(mel):
+                    e = xc[1]
+                    cond = 1 / min(e, abs(e - 1), 1.0) if e > 0 else 1e16
+                    si = max(abs(math.sin(xc[2])), 1e-12)
+                    bad = None
+                    if abs(mel[0] / xc[0] - 1) > 1e-9 * cond: bad = "a"
+                    elif abs(mel[1] - xc[1]) > 1e-9 * max(1, e) * cond: bad = "e"
+                    elif abs(mel[2] - xc[2]) > 1e-9 / si: bad = "i"
+                    elif angdiff(mel[3], xc[3]) > 1e-9 / si: bad = "raan"
+                    elif angdiff(mel[4], xc[4]) > 1e-9 * cond / min(e, 1.0) / si: bad = "argp"
+                    elif (angdiff(mel[5], xc[5]) if conic == "ell" else abs(mel[5] - xc[5]) / max(1.0, abs(xc[5]))) > 1e-9 * cond / min(e, 1.0) / si: bad = "M"
+                    if bad:
+                        out.fail(f"c05-setter-{bad}-{conic}", f"element {bad} computed by the orbit setter from a cartesian orbit differs from the Lean model "
+                                 "(cartesian -> keplerian -> eccentric -> mean translated from forms.py)", inp, observed=xc, expected=mel)
+                        continue
+                elif finite(xc) != finite(mel):
+                    out.fail("c05-setter-finiteness", "one of implementation / model computes non-finite mean elements from the cartesian orbit", inp, observed=xc, expected=mel)
+                    continue
+                if not isinstance(mcart, list):
+                    if finite(impl):
+                        out.fail(f"c05-cartesian-in-out-fuel", "the model's M2E loop did not exit within 10^4 passes", inp, observed=impl, expected=mcart)
+                    continue
+                if finite(impl) != finite(mcart):
+                    out.fail(f"c05-cartesian-in-out-finiteness", "one of implementation / model is non-finite", inp, observed=impl, expected=mcart)
+                    continue
+                if finite(impl):
+                    bad = cart_differs(impl, mcart, 1e-9 * (1 + (n * abs(dt) if math.isfinite(n) else 0)))
+                    if bad:
+                        out.fail(f"c05-cartesian-in-out-{inp['propagator']}-{conic}", f"component {bad[0]} of Orbit.propagate on a cartesian orbit differs from the Lean model of the whole "
+                                 "call (setter: cartesian -> mean; update; mean -> cartesian)", inp, observed=impl, expected=mcart)
                 continue
             if kind == "hist":
                 fields = [t.strip() for t in rep.split("|")] if rep.strip() else []
@@ -1213,6 +1344,23 @@ def oracle(ctx, widened):
             guarded(out, j2_case, gen_dated(rng, k, gen_j2_input))
         for k in range(108 * (4 if big else 1)):
             guarded(out, api_case, dict(gen_dated(rng, k, gen_kepler_input if k % 2 else gen_j2_input), api=True))
+        # outside the J2 clause's domain (0 <= e < 1: the secular rates are orbit averages, dM contains sqrt(1 - e^2)): what the code
+        # does with a hyperbolic orbit is RECORDED, never judged (ASSUMPTIONS; theorem j2_outside_domain_hyperbolic)
+        for _ in range(20):
+            inp = gen_kepler_input(rng)
+            if inp["mean_elements"][1] <= 1 or inp["frame"] in OTHER_BODIES:
+                continue
+            out.count(key=("j2-hyperbolic", tuple(inp["mean_elements"]), inp["dt"]), kind="j2-hyperbolic-probe(outside the domain)")
+            try:
+                with time_limit():
+                    orb, d0 = make(inp["mean_elements"], inp["form"], inp["frame"], "J2")
+                    from beyond.dates import timedelta as _td
+                    r = [float(v) for v in orb.propagate(_td(seconds=inp["dt"]))]
+                out.tally("j2-hyperbolic=" + ("finite state" if finite(r) else "non-finite state, silently"))
+            except NoReturn:
+                out.tally("j2-hyperbolic=no return")
+            except Exception as ex:
+                out.tally("j2-hyperbolic=raises " + type(ex).__name__)
     out.sample({"checks": "kepler: elements constant, M advance, compose, inverse, periodic, universal-variable; j2: a e i constant, secular rates, polar, critical, sso, compose"})
     return out
 
@@ -1314,10 +1462,11 @@ class Handing:
 
 def gen_kepler_input(rng):
     conic = "ell" if rng.random() < 0.55 else "hyp"
-    elts = gen_elts(rng, conic)
+    frame = rng.choice(KEPLER_FRAMES)
+    elts = rescale(gen_elts(rng, conic), frame)
     dt = gen_dt(rng)
     t1 = q(rng.uniform(-1, 1) * abs(dt)) if rng.random() < 0.7 else q(rng.uniform(-30, 30) * DAY)
-    return {"propagator": "Kepler", "form": rng.choice(ELL_FORMS if conic == "ell" else HYP_FORMS), "frame": rng.choice(FRAMES),
+    return {"propagator": "Kepler", "form": rng.choice(ELL_FORMS if conic == "ell" else HYP_FORMS), "frame": frame,
             "mean_elements": elts, "dt": dt, "t1": t1, "t2": q(dt - t1), "periods": rng.choice([1, 1, 2, 5, -1, -3])}
 
 
@@ -1331,6 +1480,7 @@ def kepler_case(out, inp):
 def _kepler_case(out, inp, H):
     elts, form, frame, dt = inp["mean_elements"], inp["form"], inp["frame"], inp["dt"]
     conic = "ell" if elts[1] < 1 else "hyp"
+    ctag = f":centre-{frame}" if frame in OTHER_BODIES else ""
     orb, d0 = make(elts, form, frame, "Kepler", H.epoch_date())
     mu = float(orb.frame.center.body.mu)
     x0 = mean_of(orb)
@@ -1339,7 +1489,8 @@ def _kepler_case(out, inp, H):
     arg, dt = H.arg(orb.date, dt)        # from here on `dt` is the elapsed time the argument denotes
     res = orb.propagate(arg)
     c1 = [float(v) for v in res]
-    out.count(key=("kepler", form, tuple(elts), dt, H.epoch, tuple(H.via)), nontrivial=dt != 0, kind=f"kepler-{conic}", form=form, **H.dist())
+    out.count(key=("kepler", form, tuple(elts), dt, H.epoch, tuple(H.via)), nontrivial=dt != 0, kind=f"kepler-{conic}", form=form,
+              centre=frame if frame in OTHER_BODIES else "Earth", **H.dist())
     if H.dated:
         out.tally(f"scales={H.epoch[0]}>{H.used[0][1]}")
     if not finite(c1) or not finite(x0):
@@ -1360,17 +1511,17 @@ def _kepler_case(out, inp, H):
     elif angdiff(x1[3], x0[3]) > tol / math.sin(x0[2]): bad = "raan"
     elif angdiff(x1[4], x0[4]) > tol * cond / min(e, 1.0): bad = "argp"
     if bad:
-        out.fail(f"kepler-element-{bad}-{conic}" + H.tag(), f"Kepler propagation changes {bad}", inp, observed=x1, expected=x0)
+        out.fail(f"kepler-element-{bad}-{conic}" + H.tag() + ctag, f"Kepler propagation changes {bad}", inp, observed=x1, expected=x0)
     Mexp = x0[5] + n * dt
     dM = angdiff(x1[5], Mexp) if conic == "ell" else abs(x1[5] - Mexp)
     if dM > tol * cond / min(e, 1.0) * max(1.0, abs(Mexp) if conic == "hyp" else 1.0) + (0 if H.exact else n * 3e-6):
-        out.fail(f"kepler-M-advance-{conic}" + H.tag(), "mean anomaly does not advance by n dt (dt = time elapsed between the instants of the epoch "
+        out.fail(f"kepler-M-advance-{conic}" + H.tag() + ctag, "mean anomaly does not advance by n dt (dt = time elapsed between the instants of the epoch "
                  "and of the requested date)", inp, observed=x1[5], expected=Mexp, elapsed_s=dt, handed=H.used[-1])
     # 2. independent universal-variable solution, forwards and backwards (property: 1e-5; used: 1e-9 + 1e-10 n|dt|, capped at 1e-5)
     ref = universal_kepler(mu, c0[:3], c0[3:], dt)
     out.count(key=("uv", form, tuple(elts), dt, H.epoch, tuple(H.via)), nontrivial=dt != 0, kind=f"universal-variable-{conic}-{'back' if dt < 0 else 'fwd'}")
     if not rel_err(c1, ref) <= min(1e-5, 1e-9 + 1e-10 * amp) + H.slack(n, e):
-        out.fail(f"kepler-universal-variable-{conic}" + H.tag(), "Kepler.propagate differs from the universal-variable two-body solution", inp,
+        out.fail(f"kepler-universal-variable-{conic}" + H.tag() + ctag, "Kepler.propagate differs from the universal-variable two-body solution", inp,
                  observed=c1, expected=ref, elapsed_s=dt)
     # 3. composition and inverse
     t1, t2 = inp["t1"], inp["t2"]
@@ -1386,7 +1537,7 @@ def _kepler_case(out, inp, H):
             fam = nonfinite_family("Kepler", x0, mu, t1) if not finite(mid) else nonfinite_family("Kepler", mean_of(mid), mu, t2)
             out.fail(fam, "Kepler.propagate returns a non-finite state inside the property's domain (composition leg)", inp, observed=two)
         elif not rel_err(two, c1) <= 3e-9 * amp2 * cond + 2 * H.slack(n, e):
-            out.fail(f"kepler-compose-{conic}" + H.tag(), "propagate(t1) then propagate(t2) differs from propagate(t1+t2)", inp, observed=two, expected=c1,
+            out.fail(f"kepler-compose-{conic}" + H.tag() + ctag, "propagate(t1) then propagate(t2) differs from propagate(t1+t2)", inp, observed=two, expected=c1,
                      handed=H.used[-3:])
     ab, tb = H.arg(res.date, -dt)
     back = [float(v) for v in res.propagate(ab)]
@@ -1394,7 +1545,7 @@ def _kepler_case(out, inp, H):
     if not finite(back):
         out.fail(nonfinite_family("Kepler", x1, mu, -dt), "Kepler.propagate returns a non-finite state inside the property's domain (way back)", inp, observed=back)
     elif not rel_err(back, c0) <= 3e-9 * amp * cond + 2 * H.slack(n, e):
-        out.fail(f"kepler-inverse-{conic}" + H.tag(), "propagate(-t) after propagate(t) does not return to the initial state", inp, observed=back, expected=c0)
+        out.fail(f"kepler-inverse-{conic}" + H.tag() + ctag, "propagate(-t) after propagate(t) does not return to the initial state", inp, observed=back, expected=c0)
     # 4. periodicity of bound orbits
     if conic == "ell":
         period = orb.infos.period
@@ -1405,7 +1556,7 @@ def _kepler_case(out, inp, H):
             out.count(key=("periodic", form, tuple(elts), kk, H.epoch, tuple(H.via)), kind="periodic")
             # the period is rounded to the microsecond by timedelta: allow the motion during k µs at perigee speed
             if not rel_err(per, c0) <= 3e-9 * (1 + TWO_PI * abs(kk)) * cond + abs(kk) * 1e-6 * n * 10 / (1 - e) ** 2 + H.slack(n, e):
-                out.fail("kepler-periodic" + H.tag(), f"state after {kk} period(s) differs from the initial state", inp, observed=per, expected=c0)
+                out.fail("kepler-periodic" + H.tag() + ctag, f"state after {kk} period(s) differs from the initial state", inp, observed=per, expected=c0)
 
 
 
@@ -1451,6 +1602,36 @@ def api_case(out, inp):
             if rel_err(g, ref) > 1e-11 * (1 + n * abs(t)) * cond + 2 * (n * 3e-6 * math.sqrt(1 + e) / abs(1 - e) ** 1.5 if not (d.scale.name in UNIFORM and sc in UNIFORM) else 0):
                 out.fail(f"{prop.lower()}-iter-dates" + H.tag(), "iter(dates=…) gives for a date in one scale another state than propagate() to the same instant "
                          "given in the epoch's scale", inp, observed=g, expected=ref, date=str(d))
+        # two orbits alive in one process, their iterators advanced in lockstep (each owns a propagator object of the same class):
+        # every point is what propagate() of a FRESH orbit with the same coordinates gives
+        if len(dates) >= 2:
+            from beyond.orbits import Orbit
+            elts2 = [elts[0] * 1.07] + list(elts[1:5]) + [elts[5] + 0.9]
+            orb2, _ = make(elts2, inp["form"], inp["frame"], prop, H.epoch_date())
+            snaps = [([float(v) for v in o], o.date, o.form.name) for o in (orb, orb2)]
+            out.count(key=("sibling-iter", prop, tuple(elts), H.epoch, tuple(H.via)), kind=f"{prop.lower()}-sibling-iterators")
+            for k, (pa, pb) in enumerate(zip(orb.iter(dates=dates), orb2.iter(dates=dates))):
+                for which, pt, snap in (("first", pa, snaps[0]), ("second", pb, snaps[1])):
+                    ref = [float(v) for v in Orbit(snap[0], snap[1], snap[2], inp["frame"], prop).propagate(dates[k])]
+                    g = [float(v) for v in pt]
+                    if finite(g) != finite(ref) or (finite(g) and rel_err(g, ref) > 1e-12):
+                        out.fail(f"{prop.lower()}-sibling-iterators", f"point #{k} of the {which} of two orbits iterated in lockstep differs from propagate() of a fresh "
+                                 "orbit with the same coordinates (state shared between two propagator objects?)", inp, observed=g, expected=ref, point=k, which=which)
+                        break
+            # the propagator object used directly: one `orbit = …` assignment, several propagate() calls, in any order of dates
+            from beyond.propagators.kepler import Kepler as _Kep
+            from beyond.propagators.j2 import J2 as _J2
+            P = (_Kep if prop == "Kepler" else _J2)()
+            P.orbit = orb
+            seq = [dates[0], dates[1], dates[0], dates[-1], dates[1]]
+            got = [[float(v) for v in P.propagate(d)] for d in seq]
+            out.count(key=("propagator-object", prop, tuple(elts), H.epoch, tuple(H.via)), kind=f"{prop.lower()}-propagator-object-reuse")
+            for k, (d, g) in enumerate(zip(seq, got)):
+                ref = [float(v) for v in Orbit(snaps[0][0], snaps[0][1], snaps[0][2], inp["frame"], prop).propagate(d)]
+                if finite(g) != finite(ref) or (finite(g) and rel_err(g, ref) > 1e-12):
+                    out.fail(f"{prop.lower()}-propagator-object-reuse", f"call #{k} of propagate() on one propagator object (orbit assigned once) differs from the "
+                             "propagation of a fresh orbit (the propagator's stored orbit was modified by an earlier call?)", inp, observed=g, expected=ref, call=k)
+                    break
         # iter(start, stop, step): start in another scale than the epoch, stop as a timedelta
         step = timedelta(seconds=q(abs(inp["t1"]) / 3))
         if dates and abs(inp["t1"]) > 1 and (dates[0].scale.name in CONST or (dates[0].scale.name == "UTC" and not
@@ -1492,6 +1673,17 @@ def gen_m2e_input(rng):
     else:
         e = 1 + math.exp(rng.uniform(math.log(0.01), math.log(9.0)))
     M = rng.uniform(-40, 40) if rng.random() < 0.6 else rng.uniform(-3000, 3000)
+    if rng.random() < 0.15:
+        # the edges of the domain and of the start-value branches: e at 1e-4 / 0.95 / 1.01 / 1.6 / 3.6 / 10, reduced anomalies within
+        # 1e-1 … 1e-14 of 0 and of +-pi (where the start value overshoots), clamp threshold |H0| = 30 of the hyperbolic branch
+        e = rng.choice([1e-4, 0.95, 0.95 - 1e-9, 1.01, 1.01 + 1e-9, 1.6, 1.6 - 1e-12, 3.6, 3.6 - 1e-12, 10.0]) if rng.random() < 0.7 else e
+        k = rng.randint(-480, 480)
+        off = rng.choice([-1, 1]) * 10.0 ** rng.uniform(-14, -1)
+        if e < 1:
+            M = math.pi * k + off
+        else:
+            M = rng.choice([off, math.pi + off, -math.pi + off, 30.0 * (e - 1) + off, -30.0 * (e - 1) + off, 30.0 - e + off, -30.0 + e + off,
+                            rng.choice([-1, 1]) * 10.0 ** rng.uniform(1, 3.5)])
     return {"m2e": True, "e": e, "M": M}
 
 
